@@ -115,6 +115,27 @@ func checkResume(r *Run, twinOuts string, spec []CrashSpec) []Violation {
 				return out
 			}
 		}
+		// the operator restarted at once, while jobs hit by the same signal were still
+		// dying: each of them reports "Caught signal" to the NEW mrp, which retries
+		// (it is a transient error) - until more of them have died under its eyes
+		// than it has retries (default 2).  Restarting faster than the old jobs die,
+		// with more of them than retries, is the harness's doing, not an instant of
+		// interruption: such runs are not judged.
+		late := 0
+		for _, j := range r.Jobs {
+			if j.Outcome != "aborted" || j.Inc >= r.Inc {
+				continue
+			}
+			for _, o := range r.Ops {
+				if o.Kind == "mrp-start" && containsInc2(o.Detail, j.Inc+1) && j.EndSeq > o.Seq {
+					late++
+				}
+			}
+		}
+		if cls == "failed" && late > 2 && strings.Contains(r.outBuf.String(), "Caught signal") {
+			r.Probes["more-late-dying-orphans-than-retries"]++
+			return out
+		}
 		add("resume-did-not-complete", fmt.Sprintf("after %s the restarted pipestance ended as %q (exit codes %v): %s",
 			desc, cls, r.ExitCodes, lastLines(r.outBuf.String(), 10)))
 		return out
@@ -216,6 +237,10 @@ func lockHook(r *Run) func() {
 	}
 }
 
+func containsInc2(detail string, inc int) bool {
+	return indexOf(detail, fmt.Sprintf("incarnation %d ", inc)) >= 0
+}
+
 func containsInc(detail string, inc int) bool {
 	return len(detail) > 0 && (indexOf(detail, fmt.Sprintf("mrp#%d ", inc)) >= 0)
 }
@@ -249,8 +274,22 @@ func c05Case(c *Ctx) {
 		}
 		c.Res.Probes["fork-template-base"]++
 	}
+	nestedTemplate := !forkTemplate && (c.Plan.Draw(8) == 0 || os.Getenv("VERIF_C05") == "nested")
+	if nestedTemplate {
+		// a map call inside a map-called pipeline, both over collections made at run
+		// time (rows of different lengths, empty ones among them); a restart rebuilds
+		// the forks of both levels from what is on disk, while a second, slow producer
+		// of the inner calls' arguments may still be running
+		prog = templateNestedProg(c.Plan)
+		c.Res.Probes["nested-template-base"]++
+	}
 	vdr := []string{"disable", "rolling", "post", "strict"}[c.Plan.Draw(4)]
 	fcfg := &FCfg{MaxLen: 1 + c.Plan.Draw(3), MaxChunks: c.Plan.Draw(4), Salt: "c05"}
+	if nestedTemplate {
+		fcfg.MaxLen = 2 + c.Plan.Draw(2)
+		fcfg.MaxChunks = 1 + c.Plan.Draw(2)
+		fcfg.Salt = fmt.Sprintf("c05n%d", c.Plan.Draw(4000))
+	}
 	if forkTemplate {
 		fcfg.MaxChunks = 1 + c.Plan.Draw(3)
 		fcfg.Salt = fmt.Sprintf("c05-%d", c.Plan.Draw(1000))
@@ -277,6 +316,9 @@ func c05Case(c *Ctx) {
 		cfg := &RunCfg{Prog: prog, FCfg: fcfg, MaxSteps: 80000, Flags: flags}
 		if clusterMode {
 			cfg.JobMode = "sge"
+		}
+		if nestedTemplate {
+			cfg.JobFaults = map[string]string{"TOPX/SLOW/fork0/chnk0:main#*": "slow"}
 		}
 		return cfg
 	}
@@ -305,6 +347,12 @@ func c05Case(c *Ctx) {
 		return
 	}
 	twinOuts := Canon(twin.normFiles(actTwin))
+	twinArgs := map[string]string{}
+	for _, j := range twin.Jobs {
+		if j.Args != nil {
+			twinArgs[j.Key()+":"+j.Phase] = Canon(twin.normFiles(j.Args))
+		}
+	}
 	gates := twin.Mrp.Gates
 	npoints := 4
 	if c.thorough() {
@@ -348,6 +396,23 @@ func c05Case(c *Ctx) {
 			c.Res.Probes["restarts"] += r.Inc - 1
 		}
 		vs := checkResume(r, twinOuts, spec)
+		if len(vs) == 0 && r.Class() == "complete" {
+			// (6) whatever ran, before or after the interruption, was given what the
+			// uninterrupted run gave it
+			for _, o := range r.Jobs {
+				if o.Args == nil {
+					continue
+				}
+				k := o.Key() + ":" + o.Phase
+				if want, ok := twinArgs[k]; ok {
+					if got := Canon(r.normFiles(o.Args)); got != want {
+						vs = append(vs, Violation{"C05", "job-received-other-arguments-after-resume",
+							fmt.Sprintf("after %v: job %s of incarnation %d received %s, in the uninterrupted run %s", spec, k, o.Inc, got, want), r.Steps})
+						break
+					}
+				}
+			}
+		}
 		if len(vs) > 0 || c.Keep {
 			c.Res.Violations = append(c.Res.Violations, vs...)
 			s := describeRun(r, true)
